@@ -45,8 +45,14 @@ class Parsed:
         self.thread_reports = []   # (test, threads line)
 
 
+_GLUE = re.compile(r'(Tk\d+q)(?=(?:Running \S* tests:|  Ran \d+ tests|Total: \d+ tests|  Set up \S+ |  Tear down \S+ |'
+                   r'Tearing down left over layers:|Iteration \d+$|  Running:$|Listing \S* tests:))', re.M)
+
+
 def parse(text):
     p = Parsed()
+    # a test may leave an unterminated line (always ending in a 'Tk<n>q' token) in front of a runner line
+    text = _GLUE.sub(lambda m: m.group(1) + '\n', text)
     lines = text.split('\n')
     p.lines = lines
     cur = None
